@@ -1860,7 +1860,11 @@ class ITEIntroMacro(Macro):
         for t in ites:
             P, x, y = t.args
             ite_intros.append(logic.mk_if(P, Eq(x, t), Eq(y, t)))
-        expected_ites = rhs.strip_conj()[1:]
+        rhs_conjs = rhs.strip_conj()
+        # The right side is the left side followed by definitions of its ite terms.
+        if rhs_conjs[0] != lhs and not compare_sym_tm(rhs_conjs[0], lhs):
+            raise VeriTException("ite_intro", "first conjunct of the right side should be the left side")
+        expected_ites = rhs_conjs[1:]
 
         # Sometimes the expected result has fewer conjuncts
         expected_set = set(expected_ites)
